@@ -50,3 +50,8 @@ func VerifH_chacha20poly1305_arbitrary() {
 	a, _, prefix := build()
 	verifh.CheckAEADArbitrary(a, len(prefix)+12+16+2, 16)
 }
+
+func VerifH_c19_chacha20poly1305() {
+	a, _, _ := build()
+	verifh.CheckAEADNoWrite(a)
+}
